@@ -387,8 +387,22 @@ def validate_trace(rep, trace_path, cols, nkeys, nvals, label, meta, initrid=1, 
     return res
 
 
+def trace_event_counts(rep, path):
+    """what the recorded traces actually contained (summed over the traces of a run), for the evidence file"""
+    cnt = rep.extra.setdefault("trace_event_counts", {})
+    for e in vcore.read_ndjson(path):
+        k = e.get("e")
+        if k == "Sys":
+            k = "Sys:" + str(e.get("call"))
+        elif k == "Dump":
+            k = "Dump:" + str(e.get("kind"))
+            if e.get("kind") == "hash" and len(e.get("gens", [])) > 1:
+                cnt["Dump:hash:several_index_generations"] = cnt.get("Dump:hash:several_index_generations", 0) + 1
+        cnt[k] = cnt.get(k, 0) + 1
+
+
 def record_and_validate(rep, cols, nkeys, nvals, steps, seed, crash=0, label="", small=False, cursor=0, dumps=False,
-                        boundary=False, steady=0):
+                        boundary=False, steady=0, growth_crash=False):
     out = os.path.join(vcore.scratch(), "trace_%s.ndjson" % label)
     args = {"out": out, "cols": json.dumps(cols), "nkeys": nkeys, "nvals": nvals, "steps": steps, "seed": seed}
     if cursor:
@@ -403,6 +417,10 @@ def record_and_validate(rep, cols, nkeys, nvals, steps, seed, crash=0, label="",
         args["crash"] = crash
     if small:
         args["small"] = True
+    if growth_crash:
+        # scripted prefix: growth, removal of a key still indexed by the old generation, reindex to its end,
+        # crash image right after the old index file was unlinked (see harness/src/record.rs)
+        args["growth_crash"] = True
     p = vcore.pdbh("pdb-record", args)
     summary = json.loads(p.stdout.strip().splitlines()[-1])
     meta = {"cmd": "pdb-record", "args": args}
@@ -412,6 +430,7 @@ def record_and_validate(rep, cols, nkeys, nvals, steps, seed, crash=0, label="",
                        "crash": crash, "small": small})
     res = validate_trace(rep, out, cols, nkeys, nvals, label, meta, initrid=summary.get("init_rid", 1),
                          initcid=summary.get("init_cid", 0))
+    trace_event_counts(rep, out)
     rep.nontrivial.add("trace:%s:%d" % (label, seed))
     if len(rep.samples) < 4:
         with open(out) as f:
@@ -435,6 +454,7 @@ def record_mt_and_validate(rep, cols, nkeys, commits, seed, label="", readers=3,
         rep.violation("driver: %s [cols=%s seed=%d]" % (pr, model_kinds(cols), seed),
                       {"kind": "pdb-record-mt", "cols": cols, "nkeys": nkeys, "commits": commits, "seed": seed})
     res = validate_trace(rep, out, cols, nkeys, 1, label, {"cmd": "pdb-record-mt", "args": args})
+    trace_event_counts(rep, out)
     rep.nontrivial.add("tracemt:%s:%d" % (label, seed))
     log("[trace-mt] %s cols=%s: %d events, matched %s/%s" % (label, model_kinds(cols), summary.get("events", 0),
                                                               res.get("matched"), res.get("total")))
@@ -505,6 +525,12 @@ def c02(tier):
         cols = CRASH_COLS[j % len(CRASH_COLS)]
         record_and_validate(rep, cols, 10, 4, 700 if thorough else 300, SEED * 977 + j, crash=5, label="c02t%d" % j,
                             small=(j % 2 == 0))
+    # crash at the instants of an index growth (scripted prefix: image right after the old index file is gone,
+    # then random crashes aimed at unlink / truncate instants)
+    for j in range(3 if thorough else 1):
+        record_and_validate(rep, [{"kind": "hash", "uniform": True, "collide": True, "deep": j % 2 == 1}], 80, 3,
+                            500 if thorough else 250, SEED * 983 + j, crash=5, label="c02gc%d" % j, small=True,
+                            growth_crash=True)
     return rep.finish()
 
 
@@ -1191,8 +1217,31 @@ def c14(tier):
     # larger btree (depth >= 2) and many keys per hash page
     record_and_validate(rep, [{"kind": "btree", "noempty": True}], 150 if thorough else 60, 3, 1200 if thorough else 260,
                         SEED * 31 + 5, crash=2, label="c14bt", small=True, dumps=True, steady=3)
-    nd = 0
     rep.extra["dump_events_checked"] = "counted by TLC as matched Dump events in the traces"
+    # tree columns (MultiTree.tla): node reference counts = number of referencing parents, every slot free / live
+    # node / stored root, also after a crash.  The model accounts for slots claimed at commit time by transactions
+    # that the crash loses (their claim is carried by the table header another record logged): NoLeak fails in the
+    # model and the replay shows the same slots orphaned in the files -> known finding F19.
+    r = vcore.tlc_check("MCMultiTree.tla", write_cfg(mt_cfg(fine=False, shapes="ShapesTiny", maxids=4, maxcommits=4, maxcrash=1,
+                                                              invariants=("TypeOK", "NoCorrupt", "IdealVisible", "FinalState"))),
+                        timeout=1800)
+    rep.add_model(r, "MC_MultiTree_crash")
+    if not r["ok"]:
+        rep.violation("TLC: %s violated in MultiTree.tla with crashes" % r["violated"], {"kind": "model", "cfg": "MC_MultiTree_crash", "tlc_tail": r["out"][-5000:]})
+    r = vcore.tlc_check("MCMultiTree.tla", write_cfg(mt_cfg(fine=False, shapes="ShapesTiny", maxids=3, maxcommits=3, maxcrash=1,
+                                                              invariants=("TypeOK", "NoLeak"))), timeout=1200)
+    rep.add_model(r, "MC_MultiTree_crash_noleak")
+    if not r["ok"]:
+        rep.violation("slot leak after crash: model: %s violated (slots claimed at commit time by transactions lost in the crash "
+                      "are carried by the table header another record logged)" % r["violated"],
+                      {"kind": "model", "cfg": "MC_MultiTree_crash_noleak", "tlc_tail": r["out"][-5000:]})
+    for j, var in enumerate(["", "rc,pads", "direct"] + (["pads", "rc", "direct,pads"] if thorough else [])):
+        vs = var.split(",")
+        behs = mt_generate(rep, 80 if thorough else 12, 32, SEED * 31 + j, rc="rc" in vs, fine=False, shapes="ShapesWide",
+                           maxids=14, maxcommits=10, maxlocks=0, maxcrash=3, nt=3, nv=2)
+        rep.extra["tree_crashes_replayed"] = rep.extra.get("tree_crashes_replayed", 0) + sum(
+            1 for b in behs for e in b["steps"] if e.get("a") == "Crash")
+        generic_replay(rep, "mtree-replay", behs, {"seed": SEED + 90 + j, "variant": var}, "c14m_%d" % j, "mtree-replay")
     return rep.finish()
 
 
@@ -1241,6 +1290,7 @@ def c06(tier):
             raise ToolError("the sweep did not reach every boundary length (%s of %s)" % (summary.get("values_swept"), summary.get("nvals")))
         res = validate_trace(rep, out, cols, 5, summary.get("nvals", 1), "c06_%d" % j, {"cmd": "pdb-record", "args": args},
                              initrid=summary.get("init_rid", 1), initcid=summary.get("init_cid", 0))
+        trace_event_counts(rep, out)
         rep.nontrivial.add("c06:%d" % j)
         log("[trace] c06_%d cols=%s: %d events, %d values over %d boundary lengths, matched %s/%s"
             % (j, model_kinds(cols), summary.get("events", 0), summary.get("values_swept", 0), summary.get("nvals", 0),
@@ -1312,6 +1362,14 @@ def c09(tier):
         growth["traces_with_growth"] += 1 if any(g and max(g) > 16 for g in gens) else 0
         growth["traces_with_two_pending_generations"] += 1 if (any(len(g) >= 2 for g in gens) and any(g and max(g) >= 18 for g in gens)) else 0
         growth["max_index_bits"] = max([growth["max_index_bits"]] + [max(g) for g in gens if g])
+    res = record_and_validate(rep, colsets[0], 80, 3, 400, SEED * 67, crash=2, label="c09gc", small=True, dumps=True,
+                              growth_crash=True)
+    rep.extra["crash_right_after_old_index_unlinked"] = sum(
+        1 for a, b in zip(vcore.read_ndjson(os.path.join(vcore.scratch(), "trace_c09gc.ndjson"))[:-1],
+                          vcore.read_ndjson(os.path.join(vcore.scratch(), "trace_c09gc.ndjson"))[1:])
+        if b.get("e") == "Crash" and a.get("e") == "Sys" and a.get("call") == "unlink" and str(a.get("f", "")).startswith("index"))
+    if rep.extra["crash_right_after_old_index_unlinked"] == 0:
+        raise ToolError("the scripted growth-crash trace did not crash right after the unlink of the old index: vacuous")
     rep.extra["index_growth_in_traces"] = growth
     if growth["traces_with_growth"] < ntr - 1 or growth["traces_with_two_pending_generations"] == 0:
         raise ToolError("C09 traces did not grow the index (%s): vacuous" % growth)
@@ -1321,14 +1379,14 @@ def c09(tier):
 # ---------------------------------------------------------------------------
 # C10 / C11: multitree columns (spec/MultiTree.tla)
 
-def mt_cfg(rc=False, ao=False, fine=False, shapes="ShapesSmall", maxids=5, maxcommits=4, maxlocks=0, maxdefers=2,
+def mt_cfg(rc=False, ao=False, fine=False, shapes="ShapesSmall", maxids=5, maxcommits=4, maxlocks=0, maxdefers=2, maxcrash=0,
            nt=2, nv=1, fix=("F18",), mut=(), gen=False, genlen=30, invariants=None, pipes=("flush", "enact", "clean"),
            rejw=6):
     b = lambda x: "TRUE" if x else "FALSE"
     sset = lambda xs: "{" + ", ".join('"%s"' % x for x in xs) + "}"
     lines = ["SPECIFICATION %s" % ("GenSpec" if gen else "MCSpec"), "CONSTANTS",
              "  NT = %d" % nt, "  NX = 1", "  NV = %d" % nv, "  MaxIds = %d" % maxids, "  MaxCommits = %d" % maxcommits,
-             "  MaxLocks = %d" % maxlocks, "  MaxDefers = %d" % maxdefers, "  RcRoots = %s" % b(rc), "  AO = %s" % b(ao),
+             "  MaxLocks = %d" % maxlocks, "  MaxCrash = %d" % maxcrash, "  MaxDefers = %d" % maxdefers, "  RcRoots = %s" % b(rc), "  AO = %s" % b(ao),
              "  Fine = %s" % b(fine), "  Fix = %s" % sset(fix), "  Mut = %s" % sset(mut), "  Shapes <- %s" % shapes,
              "  GenLen = %d" % genlen, "  Pipes = %s" % sset(pipes), "  RejW = %d" % rejw]
     if gen:
